@@ -77,6 +77,11 @@ let () =
         List [of_bool (M.c14_order w1 w2 p c); of_bool (M.c14_order_files w1 w2 p c);
               of_bool (M.c14_valid_sched w1 p c && M.c14_valid_sched w2 p c)]
     | _ -> failwith "c14-order: bad case");
+  Registry.register "path" (fun s ->
+    (* (w project1 project2 config) -> the fingerprints differ only through the spelling of the file paths *)
+    match list s with
+    | [w; p1; p2; c] -> of_bool (M.c14_path (sched_ w) (project_ p1) (project_ p2) (config_ c))
+    | _ -> failwith "c14-path: bad case");
   Registry.register "idem" (fun s ->
     match list s with
     | [r; n] -> of_bool (M.c14_idem_ok (result_ r) (nat_ n))
